@@ -147,6 +147,24 @@ pub fn templates() -> Vec<(String, Module)> {
         c.push(log2("r", rv("r")));
         t(&format!("std-{f}-allocating-key"), c, vec![("kf", func(&["key", "value"], vec![sv("tmp", s("allocated in key function")), sv("tt", C::CreateTable), C::Return(b(C::Len(b(rv("value")))))]))]);
     }
+    // key functions returning fresh objects: the native keeps the best key in a local of its own
+    // (strings are ordered by length)
+    for f in ["min_by_key", "max_by_key", "sorted_by_key"] {
+        for (tag, order) in [("asc", ["k", "kk", "kkk"]), ("desc", ["kkk", "kk", "k"]), ("mid", ["kk", "kkk", "k"])] {
+            let mut c = strings.clone();
+            c.push(sg("r", call(&format!("std.{f}"), vec![C::Function("kf".into()), rv("t")])));
+            c.push(log2("r", rv("r")));
+            let kf = func(
+                &["key", "value"],
+                vec![
+                    C::IfTrue(b(bin(BinOp::Equals, C::Len(b(rv("value"))), int(3))), b(C::Return(b(s(order[0]))))),
+                    C::IfTrue(b(bin(BinOp::Equals, C::Len(b(rv("value"))), int(1))), b(C::Return(b(s(order[1]))))),
+                    C::Return(b(s(order[2]))),
+                ],
+            );
+            t(&format!("std-{f}-fresh-string-key-{tag}"), c, vec![("kf", kf)]);
+        }
+    }
     for f in ["filter", "map", "any"] {
         let mut c = strings.clone();
         c.push(sg("r", call(&format!("std.{f}"), vec![C::Function("cb".into()), rv("t")])));
@@ -452,6 +470,9 @@ fn check_program(name: &str, m: &Module, tier: Tier, out: &mut ChunkResult, only
     let (co, prog) = realrun::compile_real(m);
     let (CompileOutcome::Ok, Some(prog)) = (co, prog) else { return vs };
     let base = run_sched(m, &prog, Rc::new(|_| false));
+    if std::env::var("CVX_C02_SHOW").is_ok() {
+        eprintln!("C02SHOW {name}: allocs {} result {} log {:?} globals {:?}", base.allocs, base.result, base.log, base.globals);
+    }
     if base.panic.is_some() || base.allocs < 2 {
         out.count("programs_skipped_few_allocations", 1);
         return vs;
